@@ -84,9 +84,10 @@ type Variant struct {
 	Pkg     string // ./cmd/simrun | ./cmd/simconc
 	Tags    string
 	Race    bool
-	Overlay string // path to overlay.json ("" = none)
-	Go      string // go command ("" = go)
-	TestBin bool   // build a test binary (go test -c): the stall world needs testing/synctest
+	Overlay string   // path to overlay.json ("" = none)
+	Env     []string // extra environment of the build (GOAMD64=v3)
+	Go      string   // go command ("" = go)
+	TestBin bool     // build a test binary (go test -c): the stall world needs testing/synctest
 }
 
 // Build builds (once) the binary for a variant from the current tree.
@@ -121,7 +122,7 @@ func (e *Env) Build(v Variant) (string, error) {
 	}
 	cmd := exec.Command(gocmd, args...)
 	cmd.Dir = e.VerifDir
-	cmd.Env = goEnv()
+	cmd.Env = append(goEnv(), v.Env...)
 	var buf bytes.Buffer
 	cmd.Stdout, cmd.Stderr = &buf, &buf
 	if err := cmd.Run(); err != nil {
